@@ -36,6 +36,11 @@ def _type(n):
     return (n.get('t') or '').replace('const ', '').strip()
 
 
+# definitional synonyms of the engine: reading through them makes `pawn_attacks<c>(x)` and the two shifts it stands for, or
+# pieces(c, k1, k2) and pieces(c, k1) | pieces(c, k2), the same normal form
+SYNONYMS = (('engine::pawn_attacks', None), ('engine::Position::pieces', 3))
+
+
 class Norm:
     def __init__(self, f, env=None, inline=True, names=None, accessors=False, keep=(), assume=None):
         self.f = f
@@ -52,6 +57,7 @@ class Norm:
         self._in_assume = False
         self.accessors = accessors        # also read through field accessors `T f() const { return <expr over fields>; }`
         self.mark_post = None             # field names whose reads AFTER a write in this function are printed with a prime
+        self.synonyms = ()                # (qualified name, number of parameters or None): reference functions that are read through
 
     # ---- stripping ----------------------------------------------------------------------------------------------------
     def strip(self, n):
@@ -298,12 +304,14 @@ class Norm:
         ks = kids(n)
         args = [a for a in (ks[2:] if is_lambda_call else ks[1:])]
         accessor = self.accessors and len(body) == 1 and not callee.params and callee.cls is not None
-        if not (accessor or prog.is_new_function(callee)):
+        syn = any(callee.name == nm_ and (np_ is None or np_ == len(callee.params)) for nm_, np_ in self.synonyms)
+        if not (accessor or syn or prog.is_new_function(callee)):
             return None
         if len(args) != len(callee.params):
             return None
         sub = Norm(callee, {}, self.inline, self.names, self.accessors)
         sub._depth = self._depth + 1
+        sub.synonyms = self.synonyms
         for q, a in zip(callee.params, args):
             v = self.cval(a)
             if v is not None:
@@ -976,6 +984,13 @@ def cond_value(nm, node, val):
     except Unknown:
         # non-emptiness of a bitboard expression: a union is non-empty iff one of its parts is, and two single squares
         # intersect iff they are the same square
+        if m['k'] == 'BinaryOperator' and m.get('op') == '|':
+            return any([cond_value(nm, q, val) for q in kids(m)])
+        if m['k'] == 'BinaryOperator' and m.get('op') in ('!=', '==') and len(kids(m)) == 2:
+            for x, y in (kids(m), kids(m)[::-1]):
+                if nm.cval(y) == 0:
+                    r_ = cond_value(nm, x, val)
+                    return r_ if m['op'] == '!=' else not r_
         if m['k'] == 'BinaryOperator' and m.get('op') == '&':
             a, b = (nm.resolve(x) for x in kids(m))
             for u, w in ((a, b), (b, a)):
